@@ -25,7 +25,7 @@ EXPLANATION = (
     ' (C18.7) DAYS and the subtraction of dates (built by DATE, held in cells, given as serials, across serial 60 and leap years) equal the difference of the serials.'
     ' (C18.1) number_to_datetime / datetime_to_number interpreted on serials and datetimes; (C18.8) DATE carries across the epoch, calendar fields around the year ends of ordinary, leap and century years, sequences of date calls in one process, a 1904-system workbook loaded earlier in the process.')
 NOT_DECIDED = 'the calendar itself (datetime / dateutil / yearfrac), the three million serials'
-TRUSTED = ['datetime.timedelta(days, seconds) and datetime.weekday() (Monday = 0) semantics', 'workbook scenarios: pandas storage of range arrays as row-major rows, numpy on Python numbers (IEEE results, 64-bit integer wrap), dateutil.parser.parse rejecting texts that are no dates, openpyxl address arithmetic, inspect.signature built from the FunctionDef']
+TRUSTED = ["openpyxl's two epochs (CALENDAR_WINDOWS_1900, CALENDAR_MAC_1904) as documented constants", 'datetime.timedelta(days, seconds) and datetime.weekday() (Monday = 0) semantics', 'workbook scenarios: pandas storage of range arrays as row-major rows, numpy on Python numbers (IEEE results, 64-bit integer wrap), dateutil.parser.parse rejecting texts that are no dates, openpyxl address arithmetic, inspect.signature built from the FunctionDef']
 
 
 def _reg(ctx, name):
